@@ -110,6 +110,30 @@ const STACK_BUDGET: usize = 512 * KIBI;
 #[cfg(not(target_family = "wasm"))]
 const STACK_BUDGET: usize = 4 * MEBI;
 
+/// Verification hook (feature `verif-hooks`): appends one event to the memory-discipline trace.
+#[cfg(feature = "verif-hooks")]
+macro_rules! vtrace {
+    ($kind:expr, $a:expr, $b:expr) => {
+        crate::arena::verif_hooks::mem_trace($kind, $a as u64, $b as u64)
+    };
+}
+
+/// Verification hook: small stable code of an error kind for the trace.
+#[cfg(feature = "verif-hooks")]
+impl RuntimeErrorKind {
+    fn verif_code(&self) -> u64 {
+        match self {
+            RuntimeErrorKind::Io(..) => 1,
+            RuntimeErrorKind::DivisionByZero => 2,
+            RuntimeErrorKind::StackOverflow => 3,
+            RuntimeErrorKind::IndexOutOfBounds => 4,
+            RuntimeErrorKind::TypeMismatch => 5,
+            RuntimeErrorKind::InvalidIndex => 6,
+            _ => 7,
+        }
+    }
+}
+
 // Epsilon used for approximate floating-point equality checks
 const FLOAT_EQ_EPS: f64 = 1e-12;
 
@@ -137,6 +161,13 @@ impl<'a> Value<'a> {
     /// Borrowed strings are source literals or static text and are shared as is.
     /// Numbers/bools/null are trivial copies.
     fn clone_into(&self, arena: &'a Arena) -> Self {
+        #[cfg(feature = "verif-hooks")]
+        match self {
+            Value::Str(ArenaCow::Owned(s)) => vtrace!("rcopy", s.len(), 0),
+            Value::Host(..) => vtrace!("rhost", 0, 0),
+            Value::Array(items) => vtrace!("rarr", items.len(), 0),
+            _ => {}
+        }
         match self {
             Value::Str(ArenaCow::Borrowed(s)) => Value::Str(ArenaCow::Borrowed(s)),
             Value::Str(ArenaCow::Owned(s)) => {
@@ -182,6 +213,12 @@ impl<'a> Value<'a> {
     /// Stack values (Number, Bool, Null) pass through unchanged.
     /// Values already on the target arena pass through (no double-promote).
     fn promote(self, pool: &PoolSet<'a>, frame: &Arena) -> Self {
+        #[cfg(feature = "verif-hooks")]
+        match &self {
+            Value::Host(..) => vtrace!("phost", 0, 0),
+            Value::Array(items) => vtrace!("parr", items.len(), 0),
+            _ => {}
+        }
         match self {
             Value::Number(n) => Value::Number(n),
             Value::Bool(b) => Value::Bool(b),
@@ -367,6 +404,10 @@ impl<'a> Runtime<'a> {
         match self.exec_block_with_flow(root) {
             Ok(..) => {}
             Err(err) => {
+                #[cfg(feature = "verif-hooks")]
+                vtrace!("err", err.span.start, err.span.end);
+                #[cfg(feature = "verif-hooks")]
+                vtrace!("errk", err.kind.verif_code(), 0);
                 let labels = match err.kind {
                     RuntimeErrorKind::DivisionByZero => vec![Label {
                         span: err.span,
@@ -469,6 +510,8 @@ impl<'a> Runtime<'a> {
                         "Semantic analysis guarantees only boolean expressions in conditions"
                     ),
                 };
+                #[cfg(feature = "verif-hooks")]
+                vtrace!("br", is_truthy, 0);
                 if is_truthy {
                     self.exec_block_with_flow(then_b)
                 } else if let Some(eb) = else_b {
@@ -487,12 +530,18 @@ impl<'a> Runtime<'a> {
                             "Semantic analysis guarantees only boolean expressions in loop conditions"
                         ),
                     };
+                    #[cfg(feature = "verif-hooks")]
+                    vtrace!("lp", should_continue, 0);
                     if !should_continue {
                         break;
                     }
 
                     let frame_offset =
                         if self.has_frame_arena() { Some(self.frame.offset()) } else { None };
+                    #[cfg(feature = "verif-hooks")]
+                    if let Some(offset) = frame_offset {
+                        vtrace!("mark", offset, 0);
+                    }
 
                     match self.exec_block_with_flow(body)? {
                         ExecFlow::Break => break,
@@ -501,6 +550,8 @@ impl<'a> Runtime<'a> {
                     }
 
                     if let Some(offset) = frame_offset {
+                        #[cfg(feature = "verif-hooks")]
+                        vtrace!("reset", offset, 0);
                         unsafe { self.frame.reset(offset) };
                     }
                 }
@@ -592,6 +643,8 @@ impl<'a> Runtime<'a> {
     fn pop_scope(&mut self) {
         self.function_scopes.pop();
         if let Some(scope) = self.env.pop() {
+            #[cfg(feature = "verif-hooks")]
+            vtrace!("pop", scope.len(), 0);
             for slot in &scope {
                 unsafe { slot.value.return_to_pool(&self.pool) };
             }
@@ -622,8 +675,12 @@ impl<'a> Runtime<'a> {
                 BinaryOp::And => {
                     let l = self.eval_expr(lhs)?;
                     if matches!(l, Value::Bool(false) | Value::Null) {
+                        #[cfg(feature = "verif-hooks")]
+                        vtrace!("sc", 0, 0);
                         return Ok(Value::Bool(false)); // Short-circuit evaluation
                     }
+                    #[cfg(feature = "verif-hooks")]
+                    vtrace!("sc", 1, 0);
                     let r = self.eval_expr(rhs)?;
                     match r {
                         Value::Bool(b) => Ok(Value::Bool(b)),
@@ -634,8 +691,12 @@ impl<'a> Runtime<'a> {
                 BinaryOp::Or => {
                     let l = self.eval_expr(lhs)?;
                     if let Value::Bool(true) = l {
+                        #[cfg(feature = "verif-hooks")]
+                        vtrace!("sc", 0, 0);
                         return Ok(Value::Bool(true)); // Short-circuit evaluation
                     }
+                    #[cfg(feature = "verif-hooks")]
+                    vtrace!("sc", 1, 0);
                     let r = self.eval_expr(rhs)?;
                     match r {
                         Value::Bool(b) => Ok(Value::Bool(b)),
@@ -757,6 +818,8 @@ impl<'a> Runtime<'a> {
                     return Err(RuntimeError::new(RuntimeErrorKind::IndexOutOfBounds, *index_span));
                 }
 
+                #[cfg(feature = "verif-hooks")]
+                vtrace!("ix", idx, 0);
                 // SAFETY: `idx` is >= 0 and < items.len()
                 let slot = unsafe { items.get_unchecked_mut(idx.cast_unsigned()) };
                 let slot = mem::replace(slot, Value::Null);
@@ -796,6 +859,12 @@ impl<'a> Runtime<'a> {
             };
 
         let frame_offset = if self.has_frame_arena() { Some(self.frame.offset()) } else { None };
+        #[cfg(feature = "verif-hooks")]
+        vtrace!("call", args.args.len(), 0);
+        #[cfg(feature = "verif-hooks")]
+        if let Some(offset) = frame_offset {
+            vtrace!("mark", offset, 1);
+        }
 
         // We evaluate all arguments eagerly (left-to-right evaluation order)
         let mut arg_values = Vec::with_capacity_in(args.args.len(), self.frame);
@@ -804,6 +873,8 @@ impl<'a> Runtime<'a> {
         }
 
         assert_eq!(arg_values.len(), func_def.params.params.len());
+        #[cfg(feature = "verif-hooks")]
+        vtrace!("bind", arg_values.len(), 0);
 
         // Parameters live in their own lexical scope so block locals can shadow them.
         let param_ids = self.bound_param_ids(func_def.id, func_def.params);
@@ -834,6 +905,8 @@ impl<'a> Runtime<'a> {
                 )
             }
         };
+        #[cfg(feature = "verif-hooks")]
+        vtrace!("ret", 0, 0);
 
         if let Some(offset) = frame_offset {
             return Ok(self.relocate_return_value(val, offset));
@@ -859,6 +932,8 @@ impl<'a> Runtime<'a> {
             GlobalBuiltin::Shout => {
                 let argv = mem::replace(&mut arg_values[0], Value::Null);
                 GlobalBuiltin::shout(&argv);
+                #[cfg(feature = "verif-hooks")]
+                vtrace!("out", 0, 0);
                 let argv = if self.has_frame_arena() {
                     argv.promote(&self.pool, self.frame)
                 } else {
@@ -1230,6 +1305,8 @@ impl<'a> Runtime<'a> {
                             Vec::with_capacity_in(s.len() / pat.len().max(1) + 1, self.frame);
                         StringBuiltin::split(s, &pat, self.frame)
                             .for_each(|s| collection.push(Value::Str(ArenaCow::Owned(s))));
+                        #[cfg(feature = "verif-hooks")]
+                        vtrace!("split", collection.len(), 0);
                         Ok(Value::Array(collection))
                     }
                     _ => unreachable!("Semantic analysis guarantees string arg"),
@@ -1560,13 +1637,19 @@ impl<'a> Runtime<'a> {
             // Stage string bytes on persistent (at the current tail).
             let stage_mark = self.arena.offset();
             let staged = ArenaString::from_str(self.arena, &s);
+            #[cfg(feature = "verif-hooks")]
+            vtrace!("stage", staged.len(), 0);
             // Drop frame string before reset (deallocate is a no-op).
             drop(s);
+            #[cfg(feature = "verif-hooks")]
+            vtrace!("reset", frame_offset, 1);
             unsafe { self.frame.reset(frame_offset) };
             // Reconstruct on the caller's frame from staged bytes.
             let result = ArenaString::from_str(self.frame, staged.as_str());
             // Reclaim staging!!! it is the only allocation above stage_mark.
             drop(staged);
+            #[cfg(feature = "verif-hooks")]
+            vtrace!("unstage", 0, 0);
             unsafe { self.arena.reset(stage_mark) };
             return Value::Str(ArenaCow::Owned(result));
         }
@@ -1574,12 +1657,16 @@ impl<'a> Runtime<'a> {
         if matches!(val, Value::Array(_) | Value::Host(_)) {
             // Arrays and host values are promoted to persistent via pool.
             let promoted = val.promote(&self.pool, self.frame);
+            #[cfg(feature = "verif-hooks")]
+            vtrace!("reset", frame_offset, 2);
             unsafe { self.frame.reset(frame_offset) };
             return promoted;
         }
 
         // Numbers, bools, null, borrowed source strings, persistent-owned strings
         // all survive frame reset without staging.
+        #[cfg(feature = "verif-hooks")]
+        vtrace!("reset", frame_offset, 3);
         unsafe { self.frame.reset(frame_offset) };
         val
     }
@@ -1691,6 +1778,8 @@ impl<'a> Runtime<'a> {
             return Err(RuntimeError::new(RuntimeErrorKind::IndexOutOfBounds, index_span));
         }
 
+        #[cfg(feature = "verif-hooks")]
+        vtrace!("ix", number, 0);
         #[allow(clippy::cast_possible_truncation, clippy::cast_sign_loss)]
         Ok(number as usize)
     }
